@@ -36,14 +36,14 @@ extern "C" {
 // F: the body of a forwarder task (forward_task_bypass::execute = my_node.forward_task() + bookkeeping of the task object)
 void vp_thr_fwd(unsigned tid) { graph_task* t = N().forward_task(); vp_fwd_returned(tid, t != nullptr); }
 // W variants: the successor that refused comes back (register_successor) / a decrement arrives / both
-void vp_thr_wreg(unsigned tid) { vp_wait_rejected(); N().register_successor(vp_rt.x); vp_fwd_returned(tid, 0); }
+void vp_thr_wreg(unsigned tid) { vp_wait_rejected(); N().node_t::register_successor(vp_rt.x); vp_fwd_returned(tid, 0); }
 void vp_thr_wdec(unsigned tid) { vp_dec_begin(); graph_task* t = N().decrement_counter(1); vp_fwd_returned(tid, t != nullptr); }
-void vp_thr_wboth(unsigned tid) { vp_wait_rejected(); N().register_successor(vp_rt.x); vp_dec_begin(); graph_task* t = N().decrement_counter(1); vp_fwd_returned(tid, t != nullptr); }
+void vp_thr_wboth(unsigned tid) { vp_wait_rejected(); N().node_t::register_successor(vp_rt.x); vp_dec_begin(); graph_task* t = N().decrement_counter(1); vp_fwd_returned(tid, t != nullptr); }
 // sequential pieces
 void vp_init(unsigned long threshold) { vp_graph_init(); new (&vp_node_mem.x) node_t(vp_graph(), threshold);
-  new (&vp_rt.x) vp_recvt(); vp_rt.x.id = 0; new (&vp_st.x) vp_sendt(); N().register_successor(vp_rt.x); }
+  new (&vp_rt.x) vp_recvt(); vp_rt.x.id = 0; new (&vp_st.x) vp_sendt(); N().node_t::register_successor(vp_rt.x); }
 unsigned vp_put(int v) { return N().node_t::try_put_task(v) != nullptr; }
-void vp_add_pred() { N().register_predecessor(vp_st.x); }
+void vp_add_pred() { N().node_t::register_predecessor(vp_st.x); }
 unsigned vp_forward_task() { return N().forward_task() != nullptr; }     // what executing a forwarder task does
 unsigned long vp_count() { return N().my_count; }
 unsigned long vp_tries() { return N().my_tries; }
